@@ -21,7 +21,7 @@ class Scen:
     def __init__(self, name, kind, bridges=None, herd=False, watchdog=None, labels=None):
         self.name = name
         self.kind = kind
-        self.bridges = bridges or []          # list of (fp, url) beyond the default
+        self.bridges = bridges                # full list installed with InstallBridgeListProfile (None: built-in default only)
         self.events = []                      # dicts
         self.herd = herd
         self.watchdog = watchdog
@@ -47,6 +47,9 @@ class Scen:
         k = self.nl; self.nl += 1
         self.events.append(dict(kind="L", k=k, t=t, dur=dur))
 
+    def bridge_list(self):
+        return list(self.bridges) if self.bridges is not None else [(DEFAULT_FP, DEFAULT_URL)]
+
     def line(self):
         ev = []
         for e in self.events:
@@ -61,7 +64,7 @@ class Scen:
                 ev.append("L%d:%d@%d" % (e["k"], e["dur"], e["t"]))
         if self.watchdog:
             ev.append("W0:%d@0" % self.watchdog)
-        br = ",".join("%s=%s" % b for b in ([(DEFAULT_FP, DEFAULT_URL)] + self.bridges)) if self.bridges else "-"
+        br = ",".join("%s=%s" % b for b in self.bridges) if self.bridges is not None else "-"
         return "broker scen %s %s" % (br, ",".join(ev))
 
 
@@ -94,7 +97,7 @@ def derive_labels(sc, obs, tags):
     """Event simulation that CHOOSES the model labels for a well-separated scenario; the model itself
     decides enabledness and results. Returns (labels, names) where names maps model request names
     (P<p>, C<cid>, A<aid>) to scenario request names."""
-    bridges = dict([(DEFAULT_FP, DEFAULT_URL)] + sc.bridges)
+    bridges = dict(sc.bridge_list())
     q = []
     for e in sc.events:
         if e["kind"] == "A" and e["after"] is not None:
@@ -188,7 +191,7 @@ def derive_labels(sc, obs, tags):
 
 
 def model_line(sc, labels, tags, version="v1"):
-    br = [(DEFAULT_FP, DEFAULT_URL)] + sc.bridges
+    br = sc.bridge_list()
     return "broker run %s %s %s" % (version, ",".join("%d=%d" % (tags(f), tags(u)) for f, u in br),
                                     ",".join(labels) if labels else "-")
 
@@ -231,7 +234,7 @@ def canon_model(mobs, names, tags):
 def check_history(sc, obs):
     """Evaluates C02/C03/C04 statements on an observed history. Returns list of (property, key, text)."""
     bad = []
-    bridges = dict([(DEFAULT_FP, DEFAULT_URL)] + sc.bridges)
+    bridges = dict(sc.bridge_list())
     polls = {e["k"]: e for e in sc.events if e["kind"] == "P"}
     clients = {e["k"]: e for e in sc.events if e["kind"] == "C"}
     answers = [e for e in sc.events if e["kind"] == "A"]
@@ -305,7 +308,7 @@ def check_sequential(sc, obs):
         if r.startswith("match:"):
             by_offer[r.split(":")[1]] = pk
     polls = {e["k"]: e for e in sc.events if e["kind"] == "P"}
-    bridges = dict([(DEFAULT_FP, DEFAULT_URL)] + sc.bridges)
+    bridges = dict(sc.bridge_list())
     for e in evs:
         if e["kind"] == "P":
             waiting[e["k"]] = e["t"] + TMO
@@ -434,8 +437,11 @@ def scenarios(rng, tier):
                     sc.answer(200, sid, fresh("ans"), after_poll=0)
                     S.append(sc)
         # bridges: named fingerprint, default, unknown fingerprint
-        for fp, mode in [(B2[0][0], "v"), (B2[1][0], "a"), ("-", "v"), ("C" * 40, "v"), ("C" * 40, "a")]:
-            sc = Scen(fresh("bridge"), "bridge-routing", bridges=B2)
+        BD = [(DEFAULT_FP, DEFAULT_URL)] + B2
+        for fp, mode, blist in [(B2[0][0], "v", BD), (B2[1][0], "a", BD), ("-", "v", BD), ("C" * 40, "v", BD), ("C" * 40, "a", BD),
+                                # an installed list replaces the built-in default bridge: a client naming none is not matched
+                                ("-", "v", B2), ("-", "l", B2), (DEFAULT_FP, "a", B2), (B2[0][0], "v", B2)]:
+            sc = Scen(fresh("bridge"), "bridge-routing", bridges=blist)
             sid = fresh("sid")
             sc.poll(0, sid, "unrestricted")
             sc.client(300, "restricted", "{%s}" % fresh("o"), fp=fp, mode=mode)
@@ -451,6 +457,18 @@ def scenarios(rng, tier):
                 sc.poll(j * 200, sid, rng.choice(["unrestricted", "unrestricted", "restricted", "unknown"]), clients=ld)
             for j in range(3):
                 sc.client(1500 + j * 400, rng.choice(cnats), "{%s}" % fresh("o"), mode=rng.choice(modes))
+            for j, sid in enumerate(sids):
+                sc.answer(200, sid, fresh("ans"), after_poll=j)
+            S.append(sc)
+        # loads that differ only inside a bucket of 8, busier proxy polling first (and the reverse)
+        for loads in ([15, 9], [9, 15], [23, 17, 16], [7, 1, 3]):
+            sc = Scen(fresh("bucket"), "least-loaded-same-bucket")
+            sids = []
+            for j, ld in enumerate(loads):
+                sid = fresh("sid"); sids.append(sid)
+                sc.poll(j * 200, sid, "unrestricted", clients=ld)
+            sc.client(1500, "restricted", "{%s}" % fresh("o"))
+            sc.client(1900, "unknown", "{%s}" % fresh("o"), mode="a")
             for j, sid in enumerate(sids):
                 sc.answer(200, sid, fresh("ans"), after_poll=j)
             S.append(sc)
